@@ -379,6 +379,10 @@ Definition ref_tap (lo hi top s r j : Z) : tap :=
 
 (* with 2x upscaling the hardware walks the upscaled grid; NEAREST reads row u/2, TRANSPOSE reads row u/2
    for even u and zero (TPad) for odd u *)
+(* The replication starts at the first row of the box handed to the hardware (local upscaled row t reads box row t/2).
+   Consequence (proofs/StripeUpProofs.v, nearest_odd_stripe_start_impossible): a stripe of a nearest-upscaled operator
+   that starts on an odd output row cannot be described by any (box, pad_top >= 0, pad_bottom); the scheduler therefore
+   has to give such operators -- and, inside a cascade, every operator above them -- even stripe heights. *)
 Definition hw_tap_up (rmode b0 b1 p0 p1 n s kd i j : Z) : tap :=
   let t := i * s + j - p0 in
   let ext := (n - 1) * s + kd - p0 - p1 in
